@@ -29,6 +29,17 @@ for line in sys.stdin:
         res = {"ok": True, "result": mod.run(task)}
     except Exception as e:
         res = {"ok": False, "error": "%s: %s" % (type(e).__name__, e), "tb": traceback.format_exc()[-3000:]}
+        try:
+            # an exception raised INSIDE the tree under test (innermost frame under $VERIF_TREE/mchap) on a task the
+            # harness considers valid is a verdict about that tree, not a machinery failure: mark it
+            fr = traceback.extract_tb(e.__traceback__)[-1]
+            root = os.path.realpath(os.environ.get("VERIF_TREE", "/repo")) + os.sep + "mchap" + os.sep
+            fn = os.path.realpath(fr.filename)
+            if fn.startswith(root):
+                res["impl"] = True
+                res["error"] += " [IMPL-EXCEPTION site=%s:%s exc=%s]" % (fn[len(root) - 6:], fr.name, type(e).__name__)
+        except Exception:
+            pass
     out.write(json.dumps(res, default=str) + "\n")
     out.flush()
 """
